@@ -42,12 +42,28 @@ Definition repr_flt (m e : Z) : string :=
     let fp := decZ (n mod 10 ^ (- e)) in
     ((if (m <? 0)%Z then "-" else "") ++ decZ ip ++ "." ++ zeros_str (k - String.length fp) ++ fp)%string.
 
+(* repr() of a str of printable ASCII: double quotes when the text has a single quote and no double
+   quote, single quotes otherwise; backslash and the chosen quote are escaped *)
+Fixpoint has_char (c : ascii) (s : string) : bool :=
+  match s with EmptyString => false | String d t => Ascii.eqb c d || has_char c t end.
+Fixpoint esc_str (q : ascii) (s : string) : string :=
+  match s with
+  | EmptyString => EmptyString
+  | String c t =>
+      if Ascii.eqb c "\"%char then String "\"%char (String "\"%char (esc_str q t))
+      else if Ascii.eqb c q then String "\"%char (String q (esc_str q t))
+      else String c (esc_str q t)
+  end.
+Definition repr_str (s : string) : string :=
+  let q := if has_char "'"%char s && negb (has_char """"%char s) then """"%char else "'"%char in
+  String q (esc_str q s ++ String q EmptyString)%string.
+
 (* Python str() / repr() on ints, strs and tuples of those (floats are outside the modelled
    domain of the one place that uses it, _createDisjointRenaming) *)
 Fixpoint repr_name (a : name) : string :=
   match a with
   | NInt z => decZ z
-  | NStr s => ("'" ++ s ++ "'")%string
+  | NStr s => repr_str s
   | NFlt m e => repr_flt m e
   | NTup l =>
       match l with
